@@ -337,6 +337,7 @@ impl ExtractorCompactorBackup {
                 temp_path.display()
             ))
         })?;
+        #[cfg(feature = "verif-hooks")] crate::verif_hooks::crash_point("backup.save.after_create", Some(&temp_path));
 
         // Header
         file.write_all(&[BACKUP_VERSION])
@@ -345,18 +346,22 @@ impl ExtractorCompactorBackup {
             .map_err(|e| {
                 StorageError::Archive(format!("failed to write backup max entries: {e}"))
             })?;
+        #[cfg(feature = "verif-hooks")] crate::verif_hooks::crash_point("backup.save.after_header", Some(&temp_path));
 
         // Segment indices
         for &seg in &self.segments {
             file.write_all(&u32::from(seg).to_le_bytes()).map_err(|e| {
                 StorageError::Archive(format!("failed to write backup segment: {e}"))
             })?;
+            #[cfg(feature = "verif-hooks")] crate::verif_hooks::crash_point("backup.save.after_segment", Some(&temp_path));
         }
 
         file.flush()
             .map_err(|e| StorageError::Archive(format!("failed to flush backup: {e}")))?;
+        #[cfg(feature = "verif-hooks")] crate::verif_hooks::crash_point("backup.save.after_flush", Some(&temp_path));
         file.sync_all()
             .map_err(|e| StorageError::Archive(format!("failed to fsync backup: {e}")))?;
+        #[cfg(feature = "verif-hooks")] crate::verif_hooks::crash_point("backup.save.after_sync", None);
         drop(file);
 
         std::fs::rename(&temp_path, &self.path).map_err(|e| {
@@ -365,6 +370,7 @@ impl ExtractorCompactorBackup {
                 self.path.display()
             ))
         })?;
+        #[cfg(feature = "verif-hooks")] crate::verif_hooks::crash_point("backup.save.after_rename", None);
 
         Ok(())
     }
@@ -379,6 +385,7 @@ impl ExtractorCompactorBackup {
             .append(true)
             .open(&self.path)
             .map_err(|e| StorageError::Archive(format!("failed to append to backup: {e}")))?;
+        #[cfg(feature = "verif-hooks")] crate::verif_hooks::crash_point("backup.record.after_open", Some(&self.path));
 
         // If file is empty, write header first
         let metadata = file
@@ -393,12 +400,14 @@ impl ExtractorCompactorBackup {
                 .map_err(|e| {
                     StorageError::Archive(format!("failed to write backup max entries: {e}"))
                 })?;
+            #[cfg(feature = "verif-hooks")] crate::verif_hooks::crash_point("backup.record.after_header", Some(&self.path));
         }
 
         file.write_all(&u32::from(segment_index).to_le_bytes())
             .map_err(|e| {
                 StorageError::Archive(format!("failed to write segment to backup: {e}"))
             })?;
+        #[cfg(feature = "verif-hooks")] crate::verif_hooks::crash_point("backup.record.after_segment", Some(&self.path));
 
         Ok(())
     }
